@@ -6,6 +6,7 @@ package main
 import (
 	"context"
 	"fmt"
+	"runtime"
 	"strings"
 	"time"
 
@@ -89,6 +90,14 @@ type shape struct {
 	// the time events spend queued behind the gated first invocation: the timeout bounds the
 	// append, not how long a delivery may wait for its turn
 	persistT bool
+	// goexit: the handler ends its invocation for the second event of every publisher with
+	// runtime.Goexit() (what t.Fatal does when called from a handler goroutine): not a
+	// panic - only deferred calls run. Async handlers only. The events after it are delivered
+	goexit bool
+	// earlierUnsub: two plain handlers are subscribed before the Sequential one (position
+	// 1: [A B S], position 2: [A S B]); A unsubscribes itself when it receives its first
+	// event, while the publish that delivered it is still going through the list
+	earlierUnsub int
 }
 
 type inst struct {
@@ -151,6 +160,10 @@ func (in *inst) Body() {
 				gated = true
 				vrt.Recv(gate)
 			}
+			if s.goexit && hid == 0 && id%100 == 1 {
+				in.rec.Add("exit", hid, id, "")
+				runtime.Goexit()
+			}
 			if hid == 0 && id%100 == 0 && id < 900 {
 				switch s.republish {
 				case 1:
@@ -177,6 +190,19 @@ func (in *inst) Body() {
 	if s.removeRace != 0 {
 		A.SubCustom(bus, func(context.Context, int) { vrt.Point() }, nil, evt.SubOpts{})
 	}
+	if s.earlierUnsub != 0 {
+		var unsubA func() error
+		gone := false
+		unsubA, _ = A.SubCustom(bus, func(context.Context, int) {
+			if !gone {
+				gone = true
+				unsubA()
+			}
+		}, nil, evt.SubOpts{})
+		if s.earlierUnsub == 1 {
+			A.SubCustom(bus, func(context.Context, int) {}, nil, evt.SubOpts{})
+		}
+	}
 	unsub0, _ := A.SubCustom(bus, mk(0), filter, evt.SubOpts{Sequential: true, Async: s.async, Ctx: s.ctx, Reversed: s.reversed})
 	if s.removeRace != 0 {
 		vrt.Go(func() {
@@ -191,7 +217,7 @@ func (in *inst) Body() {
 	if s.second {
 		A.SubCustom(bus, mk(1), nil, evt.SubOpts{Sequential: true, Async: s.async, Reversed: s.reversed})
 	}
-	if s.plain {
+	if s.plain || s.earlierUnsub == 2 {
 		A.SubCustom(bus, func(context.Context, int) {}, nil, evt.SubOpts{})
 	}
 	if s.unwind {
@@ -511,6 +537,12 @@ func shapes(thorough bool) []shape {
 		{name: "async/persisting-bus-with-a-short-persistence-timeout/two-publishers", async: true, persistT: true, pubs: []int{2, 1}},
 		{name: "async/3publishers-all-queued-contexts-cancelled-by-the-running-invocation", async: true, cancelWaiter: true, cancelAll: true, pubs: []int{1, 1, 1}},
 		{name: "sync/3publishers-all-waiting-contexts-cancelled-by-the-running-invocation", cancelWaiter: true, cancelAll: true, pubs: []int{1, 1, 1}},
+		{name: "async/an-invocation-ends-with-Goexit/one-publisher-3", async: true, goexit: true, pubs: []int{3}},
+		{name: "async/an-invocation-ends-with-Goexit/two-publishers", async: true, goexit: true, pubs: []int{2, 1}},
+		{name: "sync/an-earlier-handler-unsubscribes-itself/[A B S]", earlierUnsub: 1, pubs: []int{3}},
+		{name: "sync/an-earlier-handler-unsubscribes-itself/[A S B]", earlierUnsub: 2, pubs: []int{3}},
+		{name: "async/an-earlier-handler-unsubscribes-itself/[A B S]/two-publishers", async: true, earlierUnsub: 1, pubs: []int{2, 1}},
+		{name: "async/an-earlier-handler-unsubscribes-itself/[A S B]/two-publishers", async: true, earlierUnsub: 2, pubs: []int{2, 1}},
 		{name: "sync/sequential-handler-publishes-to-another-sequential-handler", nestedSeq: true, pubs: []int{0}},
 		{name: "async/sequential-handler-publishes-to-another-sequential-handler", nestedSeq: true, async: true, pubs: []int{0}},
 		{name: "sync/sequential-handlers-on-two-buses-one-waits-for-the-other", twoBuses: true, pubs: []int{0}},
